@@ -201,16 +201,74 @@ class Observer(object):
                 me.trace.append("newBuf")
             return me.orig_sio(*a, **k)
         C.open_file_obj, builtins.open, six.StringIO = ofo, opn, sio
+        self.orig_os = dict((n, getattr(os, n)) for n in ("unlink", "remove", "rename", "replace"))
+
+        def destr(name):
+            orig = self.orig_os[name]
+
+            def f(p, *a, **k):
+                if p == me.dest or (a and a[0] == me.dest):
+                    me.trace.append("unlink")
+                return orig(p, *a, **k)
+            return f
+        for n in self.orig_os:
+            setattr(os, n, destr(n))
         return self
 
     def __exit__(self, *exc):
         self.C.open_file_obj, builtins.open, self.six.StringIO = self.orig_ofo, self.orig_open, self.orig_sio
+        for n, f in self.orig_os.items():
+            setattr(os, n, f)
         for n, v in self.saved.items():
             if v is None:
                 self.obj.__dict__.pop(n, None)
             else:
                 self.obj.__dict__[n] = v
         return False
+
+
+PRIORS = ["valid", "none", "hardlink", "symlink", "readonly", "rodir"]
+EXTRA_PRIORS = ["hardlink", "symlink", "readonly"] + (["rodir"] if os.geteuid() != 0 else [])   # chmod on a directory does not bind root
+
+
+def make_destination(obj, d, prior):
+    """-> (dest, other): the destination path in the requested state, and the second name under which the same data is
+    reachable (second hard link / symlink target), if any"""
+    dest, other = os.path.join(d, "dest"), None
+    if prior == "valid":
+        obj.dump(dest)
+    elif prior == "hardlink":                     # e.g. the metadata file was hardlinked into another compose
+        obj.dump(dest)
+        other = os.path.join(d, "second-link")
+        os.link(dest, other)
+    elif prior == "symlink":
+        other = os.path.join(d, "target")
+        obj.dump(other)
+        os.symlink(other, dest)
+    elif prior == "readonly":
+        obj.dump(dest)
+        os.chmod(dest, 0o444)
+    elif prior == "rodir":
+        os.mkdir(os.path.join(d, "ro"))
+        dest = os.path.join(d, "ro", "dest")
+        obj.dump(dest)
+        os.chmod(os.path.join(d, "ro"), 0o555)
+    return dest, other
+
+
+def destination_meta(dest, other):
+    """what besides the bytes must survive a failed dump: the very same directory entry (inode, link count, kind, mode),
+    and the data under its other name"""
+    if not os.path.lexists(dest):
+        return {"exists": False}
+    lst = os.lstat(dest)
+    m = {"exists": True, "is_symlink": os.path.islink(dest), "inode": lst.st_ino, "nlink": lst.st_nlink, "mode": oct(lst.st_mode & 0o777)}
+    if m["is_symlink"]:
+        m["link_target"] = os.path.relpath(os.readlink(dest), os.path.dirname(dest))      # temp dir names differ from run to run
+    if other is not None:
+        m["other_name"] = read_state(other)
+        m["other_inode"] = os.lstat(other).st_ino if os.path.lexists(other) else None
+    return m
 
 
 def read_state(path):
@@ -226,7 +284,8 @@ class C18(Prop):
     quick_budget = 1
     thorough_budget = 6
     exhaustive = True
-    rule = ("complete fault enumeration on real files: 7 formats x {valid file already there, no file} x every _validate* of every "
+    rule = ("complete fault enumeration on real files: 7 formats x destination {plain file, no file; in rotation: hardlinked file, symlink "
+            "to a file, read-only file, (non-root) read-only directory - same bytes AND same inode/link count/kind/mode required} x every _validate* of every "
             "object validated during a dump (injected ValueError/TypeError) + a really invalid value for every validated field + an "
             "unencodable payload value + 13 real invalid states failing in a section writer (IndexError/KeyError/TypeError/"
             "AttributeError/ValueError without a validator refusing); oracle: bytes/existence of the destination before vs after a dump that raised; "
@@ -287,6 +346,8 @@ class C18(Prop):
                 counts = {}
                 yield {"op": "dump_fault", "args": {"fmt": fmt, "seed": seed, "prior": "valid", "fault": {"kind": "none"}}}
                 yield {"op": "dump_fault", "args": {"fmt": fmt, "seed": seed, "prior": "none", "fault": {"kind": "none"}}}
+                for prior in EXTRA_PRIORS:
+                    yield {"op": "dump_fault", "args": {"fmt": fmt, "seed": seed, "prior": prior, "fault": {"kind": "none"}}}
                 for inst, persistent in insts:
                     cls = clsname(inst)
                     nth = counts.get(cls, 0); counts[cls] = nth + 1
@@ -295,7 +356,8 @@ class C18(Prop):
                     for j, m in enumerate(methods):
                         self.covered.add((cls, m))
                         exc = "ValueError" if (j + nth) % 3 else "TypeError"
-                        for prior in ("valid", "none"):
+                        extra = EXTRA_PRIORS[(j + nth + len(self.covered)) % len(EXTRA_PRIORS)]     # one further destination kind, in rotation
+                        for prior in ("valid", "none", extra):
                             yield {"op": "dump_fault", "args": {"fmt": fmt, "seed": seed, "prior": prior,
                                                                 "fault": {"kind": "inject", "cls": cls, "nth": nth, "method": m, "exc": exc}}}
                     if persistent:
@@ -304,11 +366,11 @@ class C18(Prop):
                                 yield {"op": "dump_fault", "args": {"fmt": fmt, "seed": seed, "prior": "valid" if (nth + len(f)) % 4 else "none",
                                                                     "fault": {"kind": "value", "cls": cls, "nth": nth, "field": f, "value": v}}}
                 if fmt in PAYLOAD_FAULTS:
-                    for prior in ("valid", "none"):
+                    for prior in ["valid", "none"] + EXTRA_PRIORS:
                         yield {"op": "dump_fault", "args": {"fmt": fmt, "seed": seed, "prior": prior, "fault": {"kind": "payload"}}}
                 for name in sorted(STATE_FAULTS):
                     if STATE_FAULTS[name][0] == fmt:
-                        for prior in ("valid", "none"):
+                        for prior in ["valid", "none"] + EXTRA_PRIORS:
                             yield {"op": "dump_fault", "args": {"fmt": fmt, "seed": seed, "prior": prior, "fault": {"kind": "state", "name": name}}}
 
     # ------------------------------------------------------------------ real side
@@ -326,9 +388,11 @@ class C18(Prop):
         dest = os.path.join(d, "dest")
         restore = []
         try:
-            if a["prior"] == "valid":
-                obj.dump(dest)
+            other = None
+            if a["prior"] != "none":
+                dest, other = make_destination(obj, d, a["prior"])
             before = read_state(dest)
+            meta_before = destination_meta(dest, other)
             # ---- apply the fault
             applied = True
             kw = {}
@@ -379,6 +443,9 @@ class C18(Prop):
                     outcomes["buildFail"] = [len(sio.getvalue()), type(e).__name__]
             except Exception as e:
                 outcomes["serialize"] = checklib.err_class(e)
+            writable = os.access(dest, os.W_OK) if os.path.lexists(dest) else os.access(os.path.dirname(dest), os.W_OK)
+            if not writable:
+                outcomes["openErr"] = "Other"
             # ---- the dump itself, observed
             with Observer(obj, dest) as ob:
                 try:
@@ -387,7 +454,16 @@ class C18(Prop):
                 except Exception as e:
                     result = {"err": type(e).__name__, "eff": ob.trace[-1] if ob.trace else None}
             after = read_state(dest)
+            meta_after = destination_meta(dest, other)
+            for key in ("inode", "other_inode"):          # inode numbers differ from run to run: keep only "is it the same one"
+                if key in meta_before or key in meta_after:
+                    same = meta_before.get(key) == meta_after.get(key)
+                    if key in meta_before:
+                        meta_before[key] = "original"
+                    if key in meta_after:
+                        meta_after[key] = "original" if same else "another"
             return {"applied": applied, "before": before, "after": after, "result": result, "trace": ob.trace,
+                    "meta_before": meta_before, "meta_after": meta_after,
                     "outcomes": outcomes, "script": self.gen()["effects"]["owners"][FORMAT_CLASS[fmt]]}
         finally:
             for k, name, had, old in restore:
@@ -395,6 +471,11 @@ class C18(Prop):
                     setattr(k, name, old)
                 else:
                     delattr(k, name)
+            for root_, dirs_, files_ in os.walk(d):
+                try:
+                    os.chmod(root_, 0o755)
+                except OSError:
+                    pass
             shutil.rmtree(d, ignore_errors=True)
 
     # ------------------------------------------------------------------ model side
@@ -427,10 +508,18 @@ class C18(Prop):
         r = real_out
         if r["result"] == "ok":
             return None
+        if r["after"] == r["before"] and r.get("meta_after") != r.get("meta_before"):
+            mb, ma = r.get("meta_before") or {}, r.get("meta_after") or {}
+            changed = dict((k, {"before": mb.get(k), "after": ma.get(k)}) for k in sorted(set(mb) | set(ma)) if mb.get(k) != ma.get(k) and k != "other_name")
+            if mb.get("other_name") != ma.get("other_name"):
+                changed["other_name_bytes"] = "changed"
+            return {"observed": {"error": r["result"]["err"], "failed_at": r["result"]["eff"], "destination": case["args"]["prior"], "changed": changed},
+                    "required": "after a dump that raised the destination is the very same directory entry (inode, link count, symlink, mode) "
+                                "and the data under its other name is untouched", "kind": "destination-replaced"}
         if r["after"] != r["before"]:
             def short(s):
                 return None if s is None else {"bytes": len(s.encode("utf-8", "surrogateescape")), "head": s[:60]}
-            return {"observed": {"error": r["result"]["err"], "failed_at": r["result"]["eff"], "destination_before": short(r["before"]),
+            return {"observed": {"error": r["result"]["err"], "failed_at": r["result"]["eff"], "destination": case["args"]["prior"], "destination_before": short(r["before"]),
                                  "destination_after": short(r["after"])},
                     "required": "destination unchanged (same bytes, or still absent) after a dump that raised",
                     "kind": "encoder-failure" if case["args"]["fault"]["kind"] == "payload" else "destination-damaged"}
@@ -441,6 +530,7 @@ class C18(Prop):
 
     def stats(self, case, real_out, dist):
         a = case["args"]
+        dist["destination:" + a["prior"]] = dist.get("destination:" + a["prior"], 0) + 1
         k = "%s/%s" % (a["fmt"], a["fault"]["kind"])
         dist[k] = dist.get(k, 0) + 1
         res = real_out["result"]
@@ -468,6 +558,6 @@ PROP = C18()
 
 MANIFEST = dict(
     technique="Lean 4 proof over an effect-script interpreter (abstract file system; script regenerated from the AST of every dump method) + decide on the generated scripts; complete fault enumeration on real files; run-time effect order vs script",
-    text="Theorem C18_general: for ANY effect script in which nothing that runs code of the object (validators, section writers, the encoder of build_file, unrecognised statements) follows open-for-write, any object (arbitrary outcome of every step = any failure point) and any file system, a dump that fails anywhere except in the final plain write leaves the whole file system unchanged. C18_here/C18_every_dump/C18_shape (decide on the scripts read from the source on every run): MetadataBase.dump and TreeInfo.dump have the standard shape validate* getParser validate* serialize validate* newBuf buildMem openW writeBuf, and each of the seven formats runs one of them. C18_standard/C18_dump: for that shape EVERY failure, without exception, leaves the file system unchanged. C18_nested: a refusing validator anywhere in the section tree makes dump fail with that error before anything is opened; C18_success: otherwise exactly the serialised text is written; C18_encoder_failure_covered: an encoder failure happens in memory, destination untouched. C18_counterexample (order before F2) and C18_preF19_witness (encoder on the opened file) exhibit the damage of the two earlier orders.",
+    text="Theorem C18_general: for ANY effect script in which nothing that runs code of the object (validators, section writers, the encoder of build_file, unrecognised statements) follows open-for-write, any object (arbitrary outcome of every step = any failure point) and any file system, a dump that fails anywhere except in the final plain write leaves the whole file system unchanged. C18_here/C18_every_dump/C18_shape (decide on the scripts read from the source on every run): MetadataBase.dump and TreeInfo.dump have the standard shape validate* getParser validate* serialize validate* newBuf buildMem openW writeBuf, and each of the seven formats runs one of them. C18_standard/C18_dump: for that shape EVERY failure, without exception, leaves the file system unchanged. C18_nested: a refusing validator anywhere in the section tree makes dump fail with that error before anything is opened; C18_success: otherwise exactly the serialised text is written; C18_encoder_failure_covered: an encoder failure happens in memory, destination untouched. C18_counterexample (order before F2), C18_preF19_witness (encoder on the opened file) and C18_unlink_witness (destination removed before the work is done; `unlink` = os.unlink/remove/rename/replace/shutil.* read from the source as a destructive effect) exhibit the damage of the unsafe orders.",
     note="The with-block/open semantics (truncate at once, partial content flushed) are modelled and compared with real files on every case. Statements outside the dump idiom become `unknown` (fallible, assumed not to touch the file system). HTTP/file-object destinations are outside the property.",
     ref="7/C18")
